@@ -75,7 +75,8 @@ def vh(cfg):
 class TraceJob:
     """drive one family in one build configuration (sharded), validate every shard with TLC"""
 
-    def __init__(self, cfg, family, shards=16, args=None, spec='TraceOps', env=None, label=None, timeout=900, xmx='3g'):
+    def __init__(self, cfg, family, shards=16, args=None, spec='TraceOps', env=None, label=None, timeout=900, xmx='3g', threads=0, tsan=False,
+                 expect_races=False):
         self.cfg, self.family, self.shards = cfg, family, shards
         self.args = args or []
         self.spec = spec
@@ -83,6 +84,10 @@ class TraceJob:
         self.label = label or ('%s@%s' % (family, cfg))
         self.timeout = timeout
         self.xmx = xmx
+        self.threads = threads      # > 0: the driver writes one trace per thread (<out>.t<i>)
+        self.tsan = tsan            # scan the driver's stderr for ThreadSanitizer reports
+        self.expect_races = expect_races  # witness job: the harness must be able to see a race (cached build)
+        self.races = []
 
 
 def run_driver(job, rundir, seed, tier, shard):
@@ -91,11 +96,30 @@ def run_driver(job, rundir, seed, tier, shard):
            '--tier', tier] + [str(x) for x in job.args]
     env = {'ASAN_OPTIONS': 'detect_leaks=0:abort_on_error=1:allocator_may_return_null=1', 'UBSAN_OPTIONS': 'print_stacktrace=1:halt_on_error=1'}
     env.update(job.env)
+    if job.tsan:
+        env['TSAN_OPTIONS'] = 'exitcode=0:halt_on_error=0:report_signal_unsafe=0'
     rc, o = sh(cmd, timeout=job.timeout, env=env)
     with open(out + '.driver.log', 'w') as f:
         f.write(o)
     if rc != 0:
         raise Infra('driver %s shard %d exited %d:\n%s' % (job.label, shard, rc, o[-2000:]))
+    if job.tsan:
+        n = o.count('WARNING: ThreadSanitizer')
+        if n and not job.expect_races:
+            # a report must repeat on one re-run before it is believed (DESIGN 7.2)
+            rc2, o2 = sh(cmd, timeout=job.timeout, env=env)
+            with open(out + '.driver.rerun.log', 'w') as f:
+                f.write(o2)
+            if o2.count('WARNING: ThreadSanitizer'):
+                job.races.append((out + '.driver.log', n))
+        elif job.expect_races:
+            job.races.append((out + '.driver.log', n))
+    if job.threads:
+        outs = [out + '.t%d' % i for i in range(job.threads)]
+        for x in outs:
+            if not os.path.exists(x):
+                raise Infra('missing per-thread trace ' + x)
+        return outs
     return out
 
 
